@@ -102,7 +102,7 @@ Proof.
     - unfold exd_ops. cbn [d_puts]. repeat constructor; cbn [fst snd]; numgoal.
     - split; [numgoal|]. intros H. vm_compute in H. discriminate. }
   eexists. eexists. split.
-  - apply (WDeferred exd_cfg exd_ops s eq_refl E eq_refl Hfit).
+  - apply (WDeferred exd_cfg exd_ops s eq_refl eq_refl E eq_refl Hfit).
   - vm_compute. reflexivity.
 Qed.
 
